@@ -41,7 +41,8 @@ func lexAnswer(f []string) string {
 
 // lexErrClass maps the message of an Error item to the class byte that the model keeps in
 // the item's value (Model/Lexer.lean clsTag …): the five errorfAt messages, which name an
-// unclosed construct and are positioned at its opening delimiter, get 01..05; every
+// unclosed construct and are positioned at its opening delimiter, get 01..05; the
+// errorfAt(l.start, ...) of a double-brace tag closed by a single brace gets 06; every
 // other (errorf) message is "-".
 func lexErrClass(msg string) string {
 	switch {
@@ -55,6 +56,8 @@ func lexErrClass(msg string) string {
 		return "04"
 	case strings.Contains(msg, "unclosed literal"):
 		return "05"
+	case strings.Contains(msg, "expected double closing braces in tag"):
+		return "06"
 	}
 	return "-"
 }
